@@ -86,6 +86,16 @@ Proof.
     + unfold final_set in Hf. destruct (fres s), (fexc s); try discriminate. repeat split.
 Qed.
 
+Lemma ss_set_final_rows v more s : SStep s (set_final_rows true v more s).
+Proof.
+  unfold set_final_rows. rewrite final_set_cancel. cbn [andb].
+  destruct (final_set s) eqn:Hf.
+  - left. apply sv_cancel.
+  - right; left. split; [assumption|]. exists v. unfold cancel_timer. destruct (cur_timer s); cbn.
+    + unfold final_set in Hf. destruct (fres s), (fexc s); try discriminate. repeat split.
+    + unfold final_set in Hf. destruct (fres s), (fexc s); try discriminate. repeat split.
+Qed.
+
 Lemma ss_set_final_exception e s : SStep s (set_final_exception true e s).
 Proof.
   unfold set_final_exception. rewrite final_set_cancel. cbn [andb].
@@ -138,8 +148,17 @@ Proof.
       eapply SStep_same_l; [exact Hs0|apply ss_send_request].
 Qed.
 
-Lemma ss_retry reuse h s : same_view s (retry reuse h s).
-Proof. unfold retry. cbn. destruct (is_some (fexc s)); repeat split. Qed.
+Lemma ss_retry reuse h s : SStep s (retry true reuse h s).
+Proof.
+  unfold retry. set (s1 := set_retries (retries s + 1) s).
+  assert (H1 : same_view s s1) by (repeat split).
+  destruct (is_some (fexc s1)); [left; exact H1|]. destruct (shut s1).
+  - eapply SStep_same_l; [exact H1|apply ss_set_final_exception].
+  - left. repeat split.
+Qed.
+
+Lemma ss_start_refresh s : SStep s (start_refresh true s).
+Proof. unfold start_refresh. destruct (shut s); [apply ss_set_final_result|left; repeat split]. Qed.
 
 Lemma ss_start_chain s : SStep s (start_chain true s).
 Proof. unfold start_chain. destruct (ks_hosts (pools s)); [apply ss_set_final_result|left; repeat split]. Qed.
@@ -153,11 +172,12 @@ Qed.
 
 Lemma ss_set_result a h k s : SStep s (set_result true a h k s).
 Proof.
-  destruct k as [more| |d| | |]; cbn [set_result].
-  - eapply SStep_same_l; [|apply ss_set_final_result]. repeat split.
+  destruct k as [more| |d| | | |]; cbn [set_result].
+  - apply ss_set_final_rows.
   - apply ss_set_final_result.
-  - destruct d; try (left; apply ss_retry); [apply ss_set_final_exception|apply ss_set_final_result].
+  - destruct d; try apply ss_retry; [apply ss_set_final_exception|apply ss_set_final_result].
   - apply ss_set_final_exception.
+  - apply ss_start_refresh.
   - apply ss_start_chain.
   - eapply SStep_same_l; [apply sv_cancel|apply ss_set_final_exception].
 Qed.
@@ -202,11 +222,15 @@ Proof. intros H. eapply SInv_SStep; [exact H|left; apply sv_start_timer]. Qed.
 
 Lemma SInv_step pf s o : SInv s -> SInv (step true pf s o).
 Proof.
-  intros H. destruct o as [|ps|d|a k|k|k|pl| | |c h err]; cbn [step]; [| | | | | | | | |eapply SInv_SStep; [exact H|apply ss_ks_report]].
+  intros H. destruct o as [|ps|d|a k|k|k|pl| | |c h err| |k]; cbn [step];
+    [| | | | | | | | |eapply SInv_SStep; [exact H|apply ss_ks_report]|eapply SInv_SStep; [exact H|left; repeat split]|
+     destruct (refreshes s) as [|n]; [assumption|destruct (k <=? n)%nat; [|assumption];
+       eapply SInv_SStep; [exact H|eapply SStep_same_l; [|apply ss_set_final_result]; repeat split]]].
   - eapply SInv_SStep; [exact H|]. eapply SStep_same_l; [|apply ss_send_request]. repeat split.
   - eapply SInv_SStep; [exact H|left; repeat split].
   - eapply SInv_SStep; [exact H|left; repeat split].
   - destruct (nth_error (attempts s) a) as [at_|]; [|assumption]. destruct (aopen at_); [|assumption].
+    destruct (astale at_); [eapply SInv_SStep; [exact H|left; repeat split]|].
     eapply SInv_SStep; [exact H|]. eapply SStep_same_l; [|apply ss_set_result]. repeat split.
   - destruct (nth_error (timers s) k) as [t|]; [|assumption].
     destruct (live t && (due t <=? now s)); [|assumption].
@@ -256,7 +280,7 @@ Variable g : bool.
 (* fields the liveness invariants look at, besides the final outcome *)
 Definition frameL (s s' : state) : Prop :=
   attempts s' = attempts s /\ cur_conn s' = cur_conn s /\ queue s' = queue s /\ paging s' = paging s /\ tfired s' = tfired s
-  /\ chains s' = chains s.
+  /\ chains s' = chains s /\ refreshes s' = refreshes s.
 
 Lemma frameL_refl s : frameL s s.
 Proof. repeat split. Qed.
@@ -285,7 +309,7 @@ Proof.
 Qed.
 
 Lemma AStep_frame s s' : frameL s s' -> AStep s s'.
-Proof. intros (h1 & h2 & h3 & h4 & h5 & h6). unfold AStep. rewrite h1, h2, h3, h4. intuition. Qed.
+Proof. intros (h1 & h2 & h3 & h4 & h5 & h6 & h7). unfold AStep. rewrite h1, h2, h3, h4. intuition. Qed.
 
 Lemma AInv_AStep s s' : AInv s -> AStep s s' -> AInv s'.
 Proof.
@@ -297,51 +321,54 @@ Qed.
 (* outcome step: either an outcome exists afterwards, or only open attempts were added *)
 Definition BStep (s s' : state) : Prop :=
   final_set s' = true
-  \/ (tfired s' = tfired s /\ final_set s' = final_set s /\ queue s' = queue s /\ chains s' = chains s
-      /\ exists ext, attempts s' = attempts s ++ ext /\ forallb aopen ext = true).
+  \/ (tfired s' = tfired s /\ final_set s' = final_set s /\ queue s' = queue s /\ chains s' = chains s /\ refreshes s' = refreshes s
+      /\ exists ext, attempts s' = attempts s ++ ext /\ forallb (fun a => aopen a && negb (astale a)) ext = true).
 
 Definition BInv (s : state) : Prop :=
-  (tfired s = true -> final_set s = true) /\ (all_answered s = true -> final_set s = true).
+  (tfired s = true -> final_set s = true) /\ (cur_answered s = true -> final_set s = true).
 
 Lemma BStep_refl s : BStep s s.
 Proof. right. repeat split. exists []. rewrite app_nil_r. split; reflexivity. Qed.
 
 Lemma BStep_frame s s' : frameL s s' -> fres s' = fres s -> fexc s' = fexc s -> BStep s s'.
 Proof.
-  intros (h1 & h2 & h3 & h4 & h5 & h6) hr he. right. unfold final_set. rewrite hr, he, h1, h3, h5, h6. repeat split.
+  intros (h1 & h2 & h3 & h4 & h5 & h6 & h7) hr he. right. unfold final_set. rewrite hr, he, h1, h3, h5, h6, h7. repeat split.
   exists []. rewrite app_nil_r. split; reflexivity.
 Qed.
 
 Lemma BStep_trans s1 s2 s3 : BStep s1 s2 -> BStep s2 s3 -> BStep s1 s3.
 Proof.
-  intros H12 [H|(b1 & b2 & b3 & b6 & ext2 & b4 & b5)]; [left; assumption|].
-  destruct H12 as [H|(a1 & a2 & a3 & a6 & ext1 & a4 & a5)]; [left; congruence|].
+  intros H12 [H|(b1 & b2 & b3 & b6 & b7 & ext2 & b4 & b5)]; [left; assumption|].
+  destruct H12 as [H|(a1 & a2 & a3 & a6 & a7 & ext1 & a4 & a5)]; [left; congruence|].
   right. repeat split; try congruence. exists (ext1 ++ ext2). rewrite b4, a4, app_assoc, forallb_app, a5, b5.
   split; reflexivity.
 Qed.
 
-Lemma existsb_open_not_answered l : existsb aopen l = true -> forallb (fun a => negb (aopen a)) l = false.
+Lemma existsb_open_not_answered l :
+  existsb (fun a => aopen a && negb (astale a)) l = true -> forallb (fun a => negb (aopen a) || astale a) l = false.
 Proof.
-  induction l as [|a l IH]; cbn; [discriminate|]. destruct (aopen a); cbn; [reflexivity|]. exact IH.
+  induction l as [|a l IH]; cbn; [discriminate|]. destruct (aopen a), (astale a); cbn; try reflexivity; exact IH.
 Qed.
 
-Lemma all_answered_app_open s s' ext :
-  attempts s' = attempts s ++ ext -> forallb aopen ext = true -> queue s' = queue s -> chains s' = chains s ->
-  all_answered s' = true -> all_answered s = true /\ ext = [].
+Lemma cur_answered_app_open s s' ext :
+  attempts s' = attempts s ++ ext -> forallb (fun a => aopen a && negb (astale a)) ext = true -> queue s' = queue s -> chains s' = chains s ->
+  refreshes s' = refreshes s ->
+  cur_answered s' = true -> cur_answered s = true /\ ext = [].
 Proof.
-  intros Ha Ho Hq Hc. unfold all_answered. rewrite Ha, Hq, Hc, forallb_app.
+  intros Ha Ho Hq Hc Hr. unfold cur_answered. rewrite Ha, Hq, Hc, Hr, forallb_app.
   destruct ext as [|x ext].
   - rewrite app_nil_r. cbn. rewrite andb_true_r. intros H. split; [exact H|reflexivity].
-  - cbn in Ho. apply andb_prop in Ho. destruct Ho as [Hx _]. cbn. rewrite Hx. cbn.
+  - cbn in Ho. apply andb_prop in Ho. destruct Ho as [Hx _]. apply andb_prop in Hx. destruct Hx as [Hx1 Hx2].
+    cbn. rewrite Hx1. destruct (astale x); [discriminate|]. cbn.
     rewrite andb_false_r, andb_false_r. cbn. discriminate.
 Qed.
 
 Lemma BInv_BStep s s' : BInv s -> BStep s s' -> BInv s'.
 Proof.
-  intros (i1 & i2) [H|(b1 & b2 & b3 & b6 & ext & b4 & b5)]; [split; intros _; exact H|].
+  intros (i1 & i2) [H|(b1 & b2 & b3 & b6 & b7 & ext & b4 & b5)]; [split; intros _; exact H|].
   split.
   - rewrite b1, b2. exact i1.
-  - intros H. destruct (all_answered_app_open _ _ _ b4 b5 b3 b6 H) as [H' _]. rewrite b2. apply i2, H'.
+  - intros H. destruct (cur_answered_app_open _ _ _ b4 b5 b3 b6 b7 H) as [H' _]. rewrite b2. apply i2, H'.
 Qed.
 
 (* ---- helpers *)
@@ -395,7 +422,7 @@ Lemma query_shape h s :
   queue s1 = queue s /\ paging s1 = paging s /\ tfired s1 = tfired s /\ fres s1 = fres s /\ fexc s1 = fexc s /\
   (cur_conn s <> None -> cur_conn s1 <> None) /\
   match r with
-  | Some _ => attempts s1 = attempts s ++ [mkAtt h true] /\ cur_conn s1 <> None
+  | Some _ => attempts s1 = attempts s ++ [mkAtt h true false] /\ cur_conn s1 <> None
   | None => attempts s1 = attempts s
   end.
 Proof.
@@ -403,6 +430,9 @@ Proof.
 Qed.
 
 Lemma query_chains h s : chains (fst (query h s)) = chains s.
+Proof. unfold query. destruct (pool_of _ _); reflexivity. Qed.
+
+Lemma query_refreshes h s : refreshes (fst (query h s)) = refreshes s.
 Proof. unfold query. destruct (pool_of _ _); reflexivity. Qed.
 
 Lemma AStep_tfired b s : AStep s (set_tfired b s).
@@ -458,11 +488,12 @@ Lemma send_loop_B err : forall pl s, BStep s (send_loop g err pl s).
 Proof.
   induction pl as [|h rest IH]; intros s; cbn [send_loop].
   - destruct err; [left; apply final_after_exception|apply BStep_frame; repeat split].
-  - pose proof (query_shape h s) as Hq. pose proof (query_chains h s) as Hqc. destruct (query h s) as [s1 r].
-    destruct Hq as (q1 & q2 & q3 & q4 & q5 & q6 & q7). cbn [fst] in Hqc.
+  - pose proof (query_shape h s) as Hq. pose proof (query_chains h s) as Hqc. pose proof (query_refreshes h s) as Hqr.
+    destruct (query h s) as [s1 r].
+    destruct Hq as (q1 & q2 & q3 & q4 & q5 & q6 & q7). cbn [fst] in Hqc, Hqr.
     assert (Hs1 : BStep s s1).
-    { right. unfold final_set. rewrite q1, q3, q4, q5, Hqc. repeat split. destruct r.
-      - destruct q7 as (q7 & _). exists [mkAtt h true]. split; [exact q7|reflexivity].
+    { right. unfold final_set. rewrite q1, q3, q4, q5, Hqc, Hqr. repeat split. destruct r.
+      - destruct q7 as (q7 & _). exists [mkAtt h true false]. split; [exact q7|reflexivity].
       - exists []. rewrite app_nil_r. split; [exact q7|reflexivity]. }
     destruct r.
     + eapply BStep_trans; [exact Hs1|]. apply BStep_frame; repeat split.
@@ -473,7 +504,7 @@ Qed.
 
 (* with a known connection, send_request(error_no_hosts=True) ends with an outcome or a request in flight *)
 Lemma send_loop_progress : forall pl s, cur_conn s <> None ->
-  final_set (send_loop g true pl s) = true \/ existsb aopen (attempts (send_loop g true pl s)) = true.
+  final_set (send_loop g true pl s) = true \/ existsb (fun a => aopen a && negb (astale a)) (attempts (send_loop g true pl s)) = true.
 Proof.
   induction pl as [|h rest IH]; intros s Hc; cbn [send_loop].
   - left. apply final_after_exception.
@@ -511,6 +542,30 @@ Proof.
       apply BStep_frame; [apply fl_start_timer|exact h1|exact h2].
 Qed.
 
+Lemma forallb_close_stale : forall l a at_, nth_error l a = Some at_ -> astale at_ = true ->
+  forallb (fun a => negb (aopen a) || astale a) (upd_nth a close l) = forallb (fun a => negb (aopen a) || astale a) l.
+Proof.
+  induction l as [|x l IH]; intros a at_ Hn Hs; [destruct a; discriminate|].
+  destruct a; cbn in *.
+  - inversion Hn. subst x. rewrite Hs. rewrite !orb_true_r. reflexivity.
+  - rewrite (IH a at_ Hn Hs). reflexivity.
+Qed.
+
+Lemma final_after_rows v more s : final_set (set_final_rows g v more s) = true.
+Proof.
+  unfold set_final_rows. destruct (g && final_set (cancel_timer s)) eqn:E.
+  - apply andb_prop in E. tauto.
+  - reflexivity.
+Qed.
+
+Lemma rows_frame v more s :
+  attempts (set_final_rows g v more s) = attempts s /\ cur_conn (set_final_rows g v more s) = cur_conn s
+  /\ queue (set_final_rows g v more s) = queue s.
+Proof.
+  unfold set_final_rows. destruct (fl_cancel s) as (c1 & c2 & c3 & _).
+  destruct (g && final_set (cancel_timer s)); cbn; rewrite c1, c2, c3; repeat split.
+Qed.
+
 Definition LInv (s : state) : Prop := AInv s /\ BInv s.
 
 Lemma LInv_steps s s' : LInv s -> AStep s s' -> BStep s s' -> LInv s'.
@@ -527,7 +582,7 @@ Proof. induction k as [|k IH]; intros l; destruct l as [|x l]; cbn; try reflexiv
 
 Lemma LInv_step pf s o : LInv s -> LInv (step g pf s o).
 Proof.
-  intros H. destruct o as [|ps|d|a k|k|k|pl| | |c hh err]; cbn [step].
+  intros H. destruct o as [|ps|d|a k|k|k|pl| | |c hh err| |kk]; cbn [step].
   - (* Send *)
     eapply LInv_steps; [exact H| |].
     + eapply AStep_trans; [|apply send_loop_A]. apply AStep_frame. repeat split.
@@ -547,28 +602,38 @@ Proof.
     assert (Hfin_e : forall e s2, AInv s2 -> LInv (set_final_exception g e s2)).
     { intros e s2 Hs2. apply LInv_final; [|apply final_after_exception].
       eapply AInv_AStep; [exact Hs2|apply AStep_frame, fl_set_final_exception]. }
-    assert (Hretry : forall reuse, LInv (retry reuse (ahost at_) s1)).
+    assert (Hretry : forall reuse, LInv (retry g reuse (ahost at_) s1)).
     { intros reuse. unfold retry. set (s2 := set_retries (retries s1 + 1) s1).
-      change (fexc s2) with (fexc s).
+      change (fexc s2) with (fexc s). change (shut s2) with (shut s).
       destruct (fexc s) eqn:Ee; cbn [is_some].
       - apply LInv_final; [exact HA1|]. unfold final_set. cbn. rewrite Ee. apply orb_true_r.
-      - split.
+      - destruct (shut s); [apply Hfin_e; exact HA1|]. split.
         + unfold AInv. cbn. repeat split; try tauto.
           * intros _ E. apply upd_nth_nil in E. contradiction.
           * intros _ E. apply upd_nth_nil in E. contradiction.
         + split.
           * exact B1.
-          * unfold all_answered. cbn. destruct (queue s); cbn; rewrite andb_false_r; discriminate. }
-    destruct k as [more| |d| | |]; cbn [set_result].
-    + apply Hfin_r. unfold AInv. cbn. repeat split; try tauto.
-      * intros _ E. apply upd_nth_nil in E. contradiction.
-      * intros _ E. apply upd_nth_nil in E. contradiction.
+          * unfold cur_answered. cbn. destruct (queue s); cbn; rewrite andb_false_r; discriminate. }
+    destruct (astale at_) eqn:Est.
+    { split; [exact HA1|]. split; [exact B1|]. intros Hall. apply B2.
+      unfold cur_answered in *. cbn [attempts queue chains refreshes s1 set_attempts] in Hall.
+      rewrite (forallb_close_stale _ _ _ En Est) in Hall.
+      destruct (attempts s) eqn:Ea; [contradiction|].
+      destruct (upd_nth a close (a0 :: l)) eqn:Eu; [apply upd_nth_nil in Eu; discriminate|]. exact Hall. }
+    destruct k as [more| |d| | | |]; cbn [set_result].
+    + apply LInv_final; [|apply final_after_rows].
+      destruct (rows_frame (10 + Z.of_nat a) more s1) as (r1 & r2 & r3).
+      destruct HA1 as (h1 & h2 & h3). unfold AInv. rewrite r1, r2, r3. repeat split; try assumption.
+      intros _. cbn. intros E. apply upd_nth_nil in E. contradiction.
     + apply Hfin_r, HA1.
     + destruct d; [apply Hretry|apply Hretry|apply Hfin_e, HA1|apply Hfin_r, HA1].
     + apply Hfin_e, HA1.
+    + unfold start_refresh. change (shut s1) with (shut s). destruct (shut s); [apply Hfin_r, HA1|].
+      split; [exact HA1|]. split; [exact B1|].
+      unfold cur_answered. cbn [refreshes set_refreshes]. cbn [Nat.eqb]. rewrite !andb_false_r. discriminate.
     + unfold start_chain. change (pools s1) with (pools s). destruct (ks_hosts (pools s)) as [|h0 hs0]; [apply Hfin_r, HA1|].
       split; [exact HA1|]. split; [exact B1|].
-      unfold all_answered. cbn [chains set_chains]. rewrite forallb_app. cbn. rewrite !andb_false_r. discriminate.
+      unfold cur_answered. cbn [chains set_chains]. rewrite forallb_app. cbn. rewrite !andb_false_r. discriminate.
     + apply Hfin_e. eapply AInv_AStep; [exact HA1|apply AStep_frame, fl_cancel].
   - (* Fire *)
     destruct (nth_error (timers s) k) as [t|]; [|assumption].
@@ -602,7 +667,7 @@ Proof.
         + destruct HBs as [Hf|(b1 & b2 & _)]; [intros _; exact Hf|]. rewrite b1, b2, h4, h5. exact B1.
         + intros Hall. destruct (send_loop_progress (plan s2) s2 h2) as [Hf|Ho]; [exact Hf|].
           fold (send_request g true s2) in Ho.
-          apply existsb_open_not_answered in Ho. unfold all_answered in Hall. rewrite Ho in Hall.
+          apply existsb_open_not_answered in Ho. unfold cur_answered in Hall. rewrite Ho in Hall.
           rewrite andb_false_r in Hall. discriminate. }
     destruct reuse; [|apply Hsend; try reflexivity; assumption].
     pose proof (query_shape h s1) as Hqs. destruct (query h s1) as [s2 r].
@@ -612,7 +677,7 @@ Proof.
           intros E; apply app_eq_nil in E; destruct E; discriminate.
       * split.
         -- unfold final_set. rewrite q3, q4, q5. exact B1.
-        -- unfold all_answered. rewrite q7, forallb_app. cbn. rewrite andb_false_r, andb_false_r. discriminate.
+        -- unfold cur_answered. rewrite q7, forallb_app. cbn. rewrite andb_false_r, andb_false_r. discriminate.
     + apply Hsend.
       * rewrite q7. exact Hne.
       * apply q6. exact Hc.
@@ -626,17 +691,18 @@ Proof.
     assert (Hc : cur_conn s <> None) by tauto.
     unfold next_page.
     set (s2 := page_timer_reset pf (page_reset pl s)).
-    assert (F2 : attempts s2 = attempts s /\ cur_conn s2 = cur_conn s /\ queue s2 = queue s /\ paging s2 = paging s /\ tfired s2 = false).
+    assert (F2 : attempts s2 = map make_stale (attempts s) /\ cur_conn s2 = cur_conn s /\ queue s2 = queue s /\ paging s2 = paging s /\ tfired s2 = false).
     { unfold s2, page_timer_reset. destruct pf; [|repeat split].
-      destruct (fl_page_reset (page_reset pl s)) as (c1 & c2 & c3 & c4 & c5 & _).
+      destruct (fl_page_reset (page_reset pl s)) as (c1 & c2 & c3 & c4 & c5 & _ & _).
       rewrite c1, c2, c3, c4, c5. repeat split. }
     destruct F2 as (f1 & f2 & f3 & f4 & f5).
-    destruct (fl_start_timer s2) as (t1 & t2 & t3 & t4 & t5 & _).
+    destruct (fl_start_timer s2) as (t1 & t2 & t3 & t4 & t5 & _ & _).
     set (s3 := start_timer s2) in *.
     pose proof (send_loop_A true (plan s3) s3) as (a1 & a2 & a3 & a4 & a5).
     pose proof (send_loop_B true (plan s3) s3) as HBs.
     fold (send_request g true s3) in *.
-    assert (h1 : attempts s3 <> []) by congruence.
+    assert (h1 : attempts s3 <> []).
+    { rewrite t1, f1. destruct (attempts s); [contradiction|discriminate]. }
     assert (h2 : cur_conn s3 <> None) by congruence.
     split.
     + unfold AInv. repeat split; intros; [apply a2, h2|apply a1, h1|apply a1, h1].
@@ -644,7 +710,7 @@ Proof.
       * destruct HBs as [Hf|(b1 & _)]; [intros _; exact Hf|]. rewrite b1, t5, f5. discriminate.
       * intros Hall. destruct (send_loop_progress (plan s3) s3 h2) as [Hf|Ho]; [exact Hf|].
         fold (send_request g true s3) in Ho.
-        apply existsb_open_not_answered in Ho. unfold all_answered in Hall. rewrite Ho in Hall.
+        apply existsb_open_not_answered in Ho. unfold cur_answered in Hall. rewrite Ho in Hall.
         rewrite andb_false_r in Hall. discriminate.
   - eapply LInv_steps; [exact H|apply AStep_frame|apply BStep_frame]; repeat split.
   - destruct (result_call s); [|assumption].
@@ -662,11 +728,18 @@ Proof.
       * apply LInv_final; [|apply final_after_result].
         eapply AInv_AStep; [exact HA1|apply AStep_frame, fl_set_final_result].
     + split; [exact HA1|]. split; [exact B1|].
-      intros Hall. exfalso. unfold all_answered in Hall. apply andb_prop in Hall. destruct Hall as (_ & Hall).
+      intros Hall. exfalso. unfold cur_answered in Hall. apply andb_prop in Hall. destruct Hall as (Hall & _).
+      apply andb_prop in Hall. destruct Hall as (_ & Hall).
       cbn [chains s1 set_chains] in Hall. rewrite forallb_forall in Hall.
       assert (Hin : In (x0 :: l0, e || err) (upd_nth c (fun _ => (x0 :: l0, e || err)) (chains s))).
       { eapply nth_error_In. rewrite nth_upd_nth_same. rewrite En. reflexivity. }
       specialize (Hall _ Hin). discriminate.
+  - (* Shutdown *)
+    eapply LInv_steps; [exact H|apply AStep_frame|apply BStep_frame]; repeat split.
+  - (* RunRefresh *)
+    destruct (refreshes s) as [|n] eqn:Er; [assumption|]. destruct (kk <=? n)%nat; [|assumption].
+    destruct H as (HA & _). apply LInv_final; [|apply final_after_result].
+    eapply AInv_AStep; [|apply AStep_frame, fl_set_final_result]. exact HA.
 Qed.
 
 Lemma LInv_init c : LInv (init c).
@@ -688,11 +761,17 @@ Definition C14_holds_at (s : state) : Prop :=
   (forall p, In p (pairs s) -> pair_once p = true /\ pair_reports s p = true)
   /\ (all_answered s = true \/ tfired s = true -> delivered s = true).
 
+Lemma all_answered_cur s : all_answered s = true -> cur_answered s = true.
+Proof.
+  unfold all_answered, cur_answered. rewrite !andb_true_iff. intros ((((h1 & h2) & h3) & h4) & h5).
+  repeat split; try assumption. rewrite forallb_forall in *. intros a Ha. rewrite (h2 a Ha). reflexivity.
+Qed.
+
 Lemma C14_from_invariants s : SInv s -> LInv s -> C14_holds_at s.
 Proof.
   intros HS (_ & (B1 & B2)). split.
   - intros p Hin. apply SInv_once; assumption.
-  - intros [H|H]; apply SInv_delivered; auto.
+  - intros [H|H]; apply SInv_delivered; auto. apply B2, all_answered_cur, H.
 Qed.
 
 Lemma C14_guarded pf c h : C14_holds_at (run true pf (init c) h).
